@@ -331,7 +331,9 @@ pub fn replay_in_interpreter(ctx: &Context, sys: &TransitionSystem, w: &Witness)
     use patronus::sim::{InitKind, Interpreter, Simulator};
     // the interpreter documents the five division/remainder operators as unimplemented
     let roots = crate::wl::sys::all_roots(sys);
-    if r2::post_order(ctx, &roots).iter().any(|n| matches!(r2::op_name(&ctx[*n]), "udiv" | "sdiv" | "urem" | "srem" | "smod")) {
+    // (and its array equality compares defaults before contents: a known finding of C06 - extensionally equal arrays
+    // with different defaults come out unequal - which would be re-reported here as a replay difference)
+    if r2::post_order(ctx, &roots).iter().any(|n| matches!(r2::op_name(&ctx[*n]), "udiv" | "sdiv" | "urem" | "srem" | "smod" | "arreq")) {
         return Ok(());
     }
     // the interpreter cannot be given initial state values directly; use a copy of the system whose
